@@ -300,6 +300,28 @@ func (c *Ctx) KEYTRIM(rule string) []report.Obligation {
 			continue
 		}
 		n++
+		// KEYSRC: on every way through the scan (a separator found, a line break, the end of the source) the name is
+		// a piece of the source; a constant reaching it means a path on which the name was never taken
+		var consts []string
+		seenV := map[ssa.Value]bool{}
+		var leaves func(v ssa.Value)
+		leaves = func(v ssa.Value) {
+			if seenV[v] {
+				return
+			}
+			seenV[v] = true
+			switch x := v.(type) {
+			case *ssa.Phi:
+				for _, e := range x.Edges {
+					leaves(e)
+				}
+			case *ssa.Const:
+				consts = append(consts, x.String())
+			}
+		}
+		leaves(call.Call.Args[0])
+		out = append(out, verdict(len(consts) == 0, rule+"-src", c.P.FuncID(fn)+" :: the name is a piece of the source on every path", c.P.InstrPos(call),
+			"no constant reaches the name that is trimmed and returned", fmt.Sprintf("the constant %v reaches the name on some path through the scan (the end of the source reached without a separator): what the line holds is then stored under that constant", consts)))
 		key := c.P.FuncID(fn) + " :: the class trimmed from the key contains the class the scan skips"
 		q, why := c.resolveRunePred(call.Call.Args[1])
 		if q == nil {
